@@ -478,7 +478,8 @@ def squash_order_cases() -> list[dict]:
     """Deterministic: every ordered pair, and a fixed slice of the ordered triples, of squashable alternatives
     (sensitive / insensitive, one or more characters, prefixes of each other, a range): the regex the optimizer
     builds groups alternatives, so each order must either be refused or pick the same alternative."""
-    pool = ['"a"', '"ab"', '"abc"', '^"a"', '^"ab"', '^"AB"', '^"abc"', "'a'..'c'", '"b"', '"bc"', '^"B"']
+    pool = ['"a"', '"ab"', '"abc"', '^"a"', '^"ab"', '^"AB"', '^"abc"', "'a'..'c'", '"b"', '"bc"', '^"B"',
+            '^"\\u{212A}"', '^"\\u{130}"']      # non-ASCII letters whose case mappings reach into ASCII
     cases = []
     combos = [(x, y) for x in pool for y in pool if x != y]
     tri = [(x, y, z) for x in pool[:8] for y in pool[:8] for z in pool[:8] if len({x, y, z}) == 3]
@@ -486,7 +487,8 @@ def squash_order_cases() -> list[dict]:
     for alts in combos:
         g = f'start = {{ w ~ "c"? }}\nw = {{ {" | ".join(alts)} }}\n'
         cases.append({"family": "OPT", "label": "order of squashable alternatives", "grammar": g, "rules": ["start", "w"],
-                      "alphabet": "abcAB", "maxlen": 3, "starts": "zero", "passes": None})
+                      "alphabet": "abcAB" + ("kK\u212a" if "212A" in g else "") + ("iI\u0130\u0307" if "{130}" in g else ""),
+                      "maxlen": 3 if "u{" not in g else 2, "starts": "zero", "passes": None})
     return cases
 
 
